@@ -254,7 +254,7 @@ KAURI_KERNELS = sorted(gens.KERNEL_PARAM_NAMES)
 
 
 @st.composite
-def kauri_spec(draw, n_max=30, d_max=4, kinds=("grid", "normal", "grid2", "const")):
+def kauri_spec(draw, n_max=30, d_max=4, kinds=("grid", "normal", "offset", "grid2", "const")):
     n = draw(st.one_of(st.integers(max(1, n_max // 3), n_max), st.integers(1, n_max)))
     d = draw(st.integers(1, d_max))
     leaf = draw(st.sampled_from([1, 1, 2, 1, 3, 4]))
@@ -285,6 +285,10 @@ def build_kauri_data(s):
     elif kind == "const":
         X = rs.randn(n, d)
         X[:, rs.randint(d)] = 1.0
+    elif kind == "offset":  # large offsets with tiny spreads: distinct values closer than 1e-5 relative
+        base = rs.choice([1000.0, 2021.0, 293.15, -5e4], size=d)
+        step = rs.choice([1e-3, 1e-6, 1e-9]) * np.abs(base)
+        X = base + step * rs.randint(0, 6, size=(n, d))
     else:
         X = rs.randn(n, d)
     if s["kernel"]["name"] in gens.NONNEG_KERNELS and s["kernel"]["form"] in ("named", "precomputed", "callable"):
